@@ -22,8 +22,8 @@ func c05WaitCond() {
 	var mu sync.Mutex
 	cond := sync.NewCond(&mu)
 	counter := 0
-	nw := simrt.DrawRange(1, 3)
-	incs := simrt.DrawRange(0, 3)
+	nw := simrt.DrawRange(1, 3*simrt.Scale())
+	incs := simrt.DrawRange(0, 3*simrt.Scale())
 	type waiter struct {
 		target       int
 		ctx          context.Context
@@ -168,8 +168,8 @@ func c05Get() {
 		simrt.Failf("C05.setup", "%v", err)
 		return
 	}
-	nGets := simrt.DrawRange(1, 5)
-	nPuts := simrt.DrawRange(0, 5)
+	nGets := simrt.DrawRange(1, 5*simrt.Scale())
+	nPuts := simrt.DrawRange(0, 5*simrt.Scale())
 	closeBuf := simrt.Chance(1, 4)
 	type get struct {
 		ctx        context.Context
